@@ -8,14 +8,14 @@ import sys, itertools
 from onnxscript._internal import values
 from onnxscript import opset18
 bad = 0
-for n in range(6):
-    for pat in itertools.product([None, 1], repeat=n):
-        items = [None if p is None else object() for p in pat]
+for n in range(5):
+    for pat in itertools.product([None, 1, 0, False, 0.0], repeat=n):
+        items = [object() if p == 1 and p is not False and not isinstance(p, float) and p != 0 else p for p in pat]
         want = list(items)
         while want and want[-1] is None: want.pop()
         got = opset18._prepare_inputs(None, *items)
         if len(got) != len(want) or any(a is not b for a, b in zip(got, want)):
-            bad += 1; print('_prepare_inputs', pat, '->', [None if g is None else 'x' for g in got])
+            bad += 1; print('_prepare_inputs', pat, '->', got)
 sys.exit(1 if bad else 0)
 """
 
